@@ -1127,8 +1127,170 @@ def case_magpoint(spec, rec):
     rec.note({'coordinates': list(coo)})
 
 
+
+# ===================================================================== #
+#                 reuse: one source object, many requests               #
+# ===================================================================== #
+REUSE_KINDS = ['dipole', 'dipole5', 'wire', 'point', 'magdipole', 'magpoint']
+
+
+@st.composite
+def reuse_strategy(draw):
+    kind = draw(st.sampled_from(REUSE_KINDS))
+    spec = {
+        'grid': draw(gen.grid_spec(COUNTS)),
+        'shift': draw(st.sampled_from([0, 0, 0, 1])),
+        'kind': kind,
+        'frac': [[draw(st.floats(0.15, 0.85)) for _ in range(3)]
+                 for _ in range(draw(st.integers(3, 5)) if kind == 'wire'
+                                else 2)],
+        'az': draw(st.floats(-180, 180)), 'el': draw(st.floats(-90, 90)),
+        'lfrac': draw(st.floats(0.02, 0.2)),
+    }
+    cplx = draw(st.integers(0, 3)) == 0
+    spec['strength'] = _strength(draw, cplx)
+    cplx = spec['strength'][1] != 0.0
+    nreq = draw(st.integers(2, 5))
+    reqs = []
+    for _ in range(nreq):
+        fr = _freq(draw)
+        if cplx:
+            fr['mode'] = 'freq'
+        reqs.append({'freq': fr,
+                     'grid': draw(st.sampled_from(['same', 'same', 'equal',
+                                                   'other'])),
+                     'via': draw(st.sampled_from(['function', 'method']))})
+    spec['requests'] = reqs
+    return spec
+
+
+def _reuse_source(emg3d, spec, nodes, strength):
+    lo = np.array([nd[0] for nd in nodes])
+    hi = np.array([nd[-1] for nd in nodes])
+    frac = np.array(spec['frac'], float)
+    for i in range(1, len(frac)):       # consecutive electrodes distinct
+        if np.max(np.abs(frac[i] - frac[i-1])) < 0.02:
+            a = i % 3
+            frac[i] = frac[i-1]
+            frac[i, a] += 0.05 if frac[i, a] < 0.5 else -0.05
+    pts = lo + frac*(hi - lo)
+    kind = spec['kind']
+    ext = float(np.min(hi - lo))
+    coo5 = (float(pts[0][0]), float(pts[0][1]), float(pts[0][2]),
+            spec['az'], spec['el'])
+    if kind == 'dipole':
+        return emg3d.TxElectricDipole(pts[:2].copy(), strength=strength)
+    if kind == 'dipole5':
+        return emg3d.TxElectricDipole(coo5, strength=strength,
+                                      length=spec['lfrac']*ext)
+    if kind == 'wire':
+        return emg3d.TxElectricWire(pts.copy(), strength=strength)
+    if kind == 'point':
+        return emg3d.TxElectricPoint(coo5, strength=strength)
+    if kind == 'magdipole':
+        # square loop of area = length: keep its half diagonal inside
+        return emg3d.TxMagneticDipole(
+            coo5, strength=strength,
+            length=min(spec['lfrac']*ext, (0.2*ext)**2))
+    return emg3d.TxMagneticPoint(coo5, strength=strength)
+
+
+def case_reuse(spec, rec):
+    """One source object asked repeatedly (other frequencies, domains,
+    grids): every answer equals the answer of a freshly built source on a
+    freshly built grid, equals vector x strength x (-s mu0) [x i omega mu0
+    handled by the source class for magnetic sources: compared with the
+    fresh object instead], and earlier answers stay what they were."""
+    import emg3d
+    grid, nodes = build_grid(spec)
+    ospec = dict(spec)
+    ospec['grid'] = dict(spec['grid'], seed=spec['grid']['seed'] + 1)
+    strength = strength_of(spec)
+    src = _reuse_source(emg3d, spec, nodes, strength)
+    electric = spec['kind'] in ('dipole', 'dipole5', 'wire', 'point')
+    kept = []
+    for k, rq in enumerate(spec['requests']):
+        if rq['grid'] == 'other':
+            g, gn = build_grid(ospec)
+            lo = [max(a[0], b[0]) for a, b in zip(nodes, gn)]
+            hi = [min(a[-1], b[-1]) for a, b in zip(nodes, gn)]
+            inside = all(
+                l < float(np.min(np.asarray(src.points)[:, a])) and
+                float(np.max(np.asarray(src.points)[:, a])) < h
+                for a, (l, h) in enumerate(zip(lo, hi)))
+            if not inside:
+                g = build_grid(spec)[0]
+        elif rq['grid'] == 'equal':
+            g = build_grid(spec)[0]
+        else:
+            g = grid
+        freq = freq_arg(rq['freq'])
+        if rq['via'] == 'method':
+            got = src.get_field(g, freq)
+        else:
+            got = emg3d.get_source_field(g, src, freq)
+        # fresh objects: same arguments, new source, new grid
+        fg = emg3d.TensorMesh([h.copy() for h in g.h],
+                              origin=np.array(g.origin, float))
+        fnodes = [np.asarray(fg.nodes_x), np.asarray(fg.nodes_y),
+                  np.asarray(fg.nodes_z)]
+        fsrc = _reuse_source(emg3d, spec, nodes, strength)
+        ref = emg3d.get_source_field(fg, fsrc, freq)
+        tag = (f"{spec['kind']}:req{min(k, 2)}:{rq['freq']['mode']}:"
+               f"{rq['grid']}")
+        a, b = np.asarray(got.field), np.asarray(ref.field)
+        if a.dtype != b.dtype or a.shape != b.shape:
+            raise Violation(f"reuse:dtype_or_shape:{tag}",
+                            f"{a.dtype}{a.shape} vs fresh {b.dtype}{b.shape}")
+        sc = float(np.max(np.abs(b)))
+        if not np.all(np.abs(a - b) <= 1e-12*sc):
+            raise Violation(
+                f"reuse:differs_from_fresh_source:{tag}",
+                f"request {k} ({rq}) on a re-used {type(src).__name__}: "
+                f"max |diff| {float(np.max(np.abs(a-b))):.3e} vs max "
+                f"|field| {sc:.3e}; history "
+                f"{[(r['freq']['mode'], r['grid'], r['via']) for r in spec['requests'][:k+1]]}")
+        if got.frequency != ref.frequency or got.sval != ref.sval:
+            raise Violation(f"reuse:field_frequency:{tag}",
+                            f"{got.frequency!r}/{got.sval!r} vs "
+                            f"{ref.frequency!r}/{ref.sval!r}")
+        if electric:
+            vec = emg3d.get_source_field(
+                fg, _reuse_source(emg3d, spec, nodes, 1.0), None)
+            s = sval_of(rq['freq'])
+            fac = strength*(1.0 if s is None else -s*mu_0)
+            exp = np.asarray(vec.field)*fac
+            if np.any(np.abs(a - exp) > 1e-12*np.max(np.abs(exp))):
+                raise Violation(
+                    f"reuse:scaling_mismatch:{tag}",
+                    f"field != vector*strength*(-s mu0) at request {k}")
+        kept.append((tag, got, a.copy()))
+    for tag, fld, snap in kept:
+        if not np.array_equal(np.asarray(fld.field), snap):
+            raise Violation(
+                f"reuse:earlier_result_modified:{spec['kind']}",
+                f"the Field returned for '{tag}' was changed by a later "
+                f"request on the same source object")
+    modes = [r['freq']['mode'] for r in spec['requests']]
+    rec.cls(f"kind={spec['kind']}", f"requests={len(modes)}",
+            f"strength={strength_kind(spec)}",
+            *[f"mode={m}" for m in sorted(set(modes))],
+            *[f"grid={g}" for g in sorted({r['grid']
+                                           for r in spec['requests']})])
+    if any(m != 'freq' for m in modes[:-1]):
+        rec.cls('real_valued_request_before_last')
+    if len(set(modes)) > 1 or len({r['freq']['f']
+                                   for r in spec['requests']}) > 1:
+        rec.nt([spec['kind'], spec['grid']['n'], spec['grid']['seed'],
+                spec['frac'], spec['requests']])
+    rec.note({'kind': spec['kind'], 'shape': list(grid.shape_cells),
+              'requests': [(r['freq']['mode'], r['grid'], r['via'])
+                           for r in spec['requests']]})
+
+
 SUBS = {'wire': case_wire, 'point': case_point, 'convert': case_convert,
-        'magnetic': case_magnetic, 'magpoint': case_magpoint}
+        'magnetic': case_magnetic, 'magpoint': case_magpoint,
+        'reuse': case_reuse}
 
 
 def run(ctx):
@@ -1141,3 +1303,4 @@ def run(ctx):
                 ctx.n(600, 2500))
     ctx.explore('magpoint', magpoint_strategy(), case_magpoint,
                 ctx.n(100, 300))
+    ctx.explore('reuse', reuse_strategy(), case_reuse, ctx.n(400, 2000))
